@@ -169,18 +169,19 @@ def addClasses (tags : List (List Char)) : Node → Node
   | n => n
 
 mutual
-/-- `FragmentTree::into_nodes` -/
-def FTree.intoNodes : FTree → List Node
-  | .node f tags kids => addClasses tags f.toNode :: FTree.intoNodesList kids
+/-- `FragmentTree::into_nodes`: the fragment is scaled by `k` when it becomes a node -/
+def FTree.intoNodes (k : Int) : FTree → List Node
+  | .node f tags kids => addClasses tags (f.scale k).toNode :: FTree.intoNodesList k kids
 
-def FTree.intoNodesList : List FTree → List Node
+def FTree.intoNodesList (k : Int) : List FTree → List Node
   | [] => []
-  | k :: ks => FTree.intoNodes k ++ FTree.intoNodesList ks
+  | t :: ts => FTree.intoNodes k t ++ FTree.intoNodesList k ts
 end
 
-/-- `FragmentTree::fragments_to_node` on scaled fragments -/
-def fragmentsToNodes (len : List Char → Nat) (unit : Int) (frags : List Frag) : List Node :=
-  FTree.intoNodesList (encloseRecursive len unit (frags.map fun f => .node f [] []))
+/-- `FragmentTree::fragments_to_node`: the containment forest is built from the fragments at unit
+scale (`frag.scale(1.0)`: a `CellText` becomes a `Text`), the nodes are scaled by `k` -/
+def fragmentsToNodes (len : List Char → Nat) (k : Int) (frags : List Frag) : List Node :=
+  FTree.intoNodesList k (encloseRecursive len 1000 (frags.map fun f => .node (f.scale 1) [] []))
 
 /-! ## the root -/
 
@@ -236,7 +237,7 @@ def svgRoot (len : List Char → Nat) (cfg : Cfg) (cells : List (Cell × Char))
   let (w, h) := match cfg.overrideSize with
     | some wh => wh
     | none => canvasSize cfg cells
-  let fragNodes := fragmentsToNodes len cfg.unit (accepted.map (Frag.scale k))
+  let fragNodes := fragmentsToNodes len k accepted
   let groupNodes := groups.map fun g => Node.elem .g [] (g.map fun f => (f.scale k).toNode)
   .elem .svg [(.xmlns, [.lit "http://www.w3.org/2000/svg"]), (.width, [.num w]), (.height, [.num h]),
       (.class, [.lit "svgbob"])]
